@@ -73,6 +73,15 @@ def expand(t):
     if t["t"] == "integrate":
         # IntegrationOperator: weight with the volume element, then sum
         return dict(t="sum", a=dict(t="scale", c=t["vol"], a=t["a"]))
+    if t["t"] in ("addcm", "mulcm"):
+        # Adder / makeOp with a MultiField on a multi-domain operand: key-wise
+        out = None
+        for k in sorted(t["C"]):
+            inner = dict(t="getKey", k=k, a=t["a"])
+            node = (dict(t="addc", c=t["C"][k], neg=t["neg"], a=inner) if t["t"] == "addcm" else dict(t="mulc", d=t["C"][k], a=inner))
+            leaf = dict(t="putKey", k=k, a=node)
+            out = leaf if out is None else dict(t="add", a=out, b=leaf)
+        return out
     if t["t"] == "ptwa":
         # point-wise functions with ARRAY parameters (Field arguments of `ptw`), expressed with scalar-parameter entries
         f, P, a = t["f"], t["P"], t["a"]
@@ -349,6 +358,12 @@ class Builder:
             return self.build(t["a"]).integrate()
         if k == "ptwa":
             return self.build(t["a"]).ptw(t["f"], *[self.field(P) for P in t["P"]])
+        if k in ("addcm", "mulcm"):
+            a = self.build(t["a"])
+            mf = ift.MultiField.from_dict({kk: self.field(v) for kk, v in t["C"].items()})
+            if k == "addcm":
+                return (ift.Adder(mf, neg=t["neg"]) @ a) if self.flip(t, "adder") else ((a - mf) if t["neg"] else (a + mf))
+            return (ift.makeOp(mf) @ a) if self.flip(t, "makeop") else (a * mf)
         if k == "bil":
             m, na, nb, T, oshape = bil_info(t)
             sa, sb = [tuple(x) for x in t["shapes"]]
@@ -762,6 +777,19 @@ class Gen:
         if r.random() < 0.3:
             t2 = self.ptw_node(t, env)
             t = t2 if t2 is not None else t
+        if r.random() < 0.2 and depth >= 2:
+            # _OpProd of two multi-domain operators with the same target
+            u = None
+            for k, n in sizes.items():
+                leaf = dict(t="putKey", k=k, a=self.single(n, env, depth - 2))
+                u = leaf if u is None else dict(t="add", a=u, b=leaf)
+            t = dict(t="mul", a=t, b=u)
+        if r.random() < 0.25:
+            # Adder / makeOp with a MultiField
+            if r.random() < 0.5:
+                t = dict(t="addcm", C={k: self.vec(n) for k, n in sizes.items()}, neg=r.random() < 0.5, a=t)
+            else:
+                t = dict(t="mulcm", C={k: self.vec(n, nz=True) for k, n in sizes.items()}, a=t)
         return t
 
     def scalar(self, env, depth):
@@ -1008,6 +1036,12 @@ def lin_arith(b, t, base, rng=None):
         if t["f"] == "exp" and t["a"]["t"] == "mul" and t["a"]["b"]["t"] == "ptw" and t["a"]["b"]["f"] == "log":
             return rec(t["a"]["b"]["a"]) ** rec(t["a"]["a"])        # __pow__ with a Linearization exponent
         return la.ptw(t["f"], *t["p"])
+    if t0["t"] in ("addcm", "mulcm"):
+        la = lin_arith(b, t0["a"], base, rng)
+        mf = ift.MultiField.from_dict({kk: b.field(v) for kk, v in t0["C"].items()})
+        if t0["t"] == "addcm":
+            return (la - mf) if t0["neg"] else (la + mf)
+        return la * mf
     if t0["t"] == "ptwa":
         la = lin_arith(b, t0["a"], base, rng)
         if t0["f"] == "power" and (rng is None or rng.random() < 0.5):
